@@ -7,5 +7,5 @@ CONSTANTS
   NE = 2
   DefEasings = {1, 2}
   Defects = {}
-INVARIANTS Refines HitsExact Untouched StartOnly OrderFree
+INVARIANTS Refines HitsExact Untouched StartOnly OrderFree DupNeutral
 CHECK_DEADLOCK FALSE
